@@ -61,7 +61,15 @@ class Leaf:
         if self.prio is not None:
             args.append('priority = %d' % self.prio)
         if self.cb:
-            args.append('callback = cb%d' % self.cb)
+            form = getattr(self, 'cb_form', 0)
+            if form == 1:
+                args.append('callback = self::cb%d' % self.cb)          # path label
+            elif form == 2:
+                args.append('callback = as_skip%d::skip' % self.cb)     # a user function that happens to be called `skip`
+            elif form == 3:
+                args.append('callback = |lex| cb%d(lex)' % self.cb)     # inline closure
+            else:
+                args.append('callback = cb%d' % self.cb)
         if self.ignore_case:
             args.append('ignore(case)')
         if self.allow_greedy is not None:
@@ -188,7 +196,11 @@ def gen_def(R, opts=None):
         if explicit or R.random() < 0.3:
             lf.prio = prios[j]
         lf.cb = pick_cb(R, lf, opts.get('cb_p', 0.0))
+        lf.cb_form = R.choice([0, 0, 1, 2, 3])
         leaves.append(lf)
+    if R.random() < 0.06:
+        nl = Leaf(R.choice(['regex', 'skip']), R.choice(['a*', '[0-9]*', '(b|)', 'c?']), prio=R.choice([1, 3, 7]))
+        leaves.append(nl)
     if all(l.kind == 'skip' for l in leaves):
         leaves[0].kind = 'regex'
     d = Def(leaves, utf8=(R.random() >= opts.get('bytes_p', 0.1)), errcb=(R.random() < opts.get('errcb_p', 0.0)))
@@ -248,10 +260,14 @@ def fixed_corpus():
                     L('regex', 'e+', cb=12, value=True), L('regex', 'f+', cb=15, value=True), L('skip', ' +', cb=18),
                     L('regex', 'g+', cb=20), L('regex', 'h+', cb=9), L('regex', 'i+', cb=13, value=True)],
                    errcb=True, origin='fixed:callbacks'))
+    for k, lf in enumerate(out[-1].leaves):
+        lf.cb_form = k % 4
     out.append(Def([L('regex', '[a-c]+', cb=7), L('regex', '[d-f]+', cb=14, value=True), L('skip', '[ ,]+', cb=22),
                     L('regex', '[0-9]+', cb=21, value=True), L('regex', 'x', cb=3), L('regex', 'y+', cb=6),
                     L('regex', 'z+', cb=10), L('regex', 'w', cb=2), L('regex', 'q+', cb=11, value=True)],
                    origin='fixed:callbacks2'))
+    for k, lf in enumerate(out[-1].leaves):
+        lf.cb_form = (k + 2) % 4
     # case-insensitive
     out.append(Def([L('token', 'élan', ignore_case=True), L('regex', '[a-z]+k', ignore_case=True), L('token', 'ǆ', ignore_case=True),
                     L('skip', ' ')], origin='fixed:icase'))
